@@ -1,0 +1,28 @@
+//go:build verif
+
+// Package verifhook provides named yield points for the external verification harness.
+// This file is only compiled with the "verif" build tag.
+package verifhook
+
+import "sync/atomic"
+
+// Handler is called at every yield point while installed.
+type Handler func(name string, args ...string)
+
+var handler atomic.Pointer[Handler]
+
+// Set installs (or, with nil, removes) the handler.
+func Set(h Handler) {
+	if h == nil {
+		handler.Store(nil)
+		return
+	}
+	handler.Store(&h)
+}
+
+// Point calls the installed handler, if any.
+func Point(name string, args ...string) {
+	if h := handler.Load(); h != nil {
+		(*h)(name, args...)
+	}
+}
